@@ -48,6 +48,9 @@ type Actor struct {
 	Mode    int
 	Piece   int
 	UsePeek bool
+	// UseByte: when the handed reader offers io.ByteReader (as decoders such as encoding/xml look
+	// for), consume through ReadByte, and keep asking a few times at the end
+	UseByte bool
 	RetErr  bool // return an error to the library after consuming
 	Inv     []*Invocation
 	MaxRead int // safety cap per invocation
@@ -125,6 +128,24 @@ func (a *Actor) Run(r io.Reader, header string, declared int) error {
 	}
 	pd, canPeek := r.(peekDiscarder)
 	buf := make([]byte, 4096)
+	if br, ok := r.(io.ByteReader); ok && a.UseByte {
+		for (want < 0 || len(inv.Got) < want) && len(inv.Got) < max {
+			b, err := br.ReadByte()
+			if err != nil {
+				inv.Err = err.Error()
+				inv.EOF = err == io.EOF
+				// a byte-wise consumer typically polls the end more than once
+				for i := 0; i < 3; i++ {
+					if b2, err2 := br.ReadByte(); err2 == nil {
+						inv.Extra = append(inv.Extra, b2)
+					}
+				}
+				break
+			}
+			inv.Got = append(inv.Got, b)
+		}
+		want = len(inv.Got) // nothing more to do in the generic loop
+	}
 	for (want < 0 || len(inv.Got) < want) && len(inv.Got) < max {
 		rem := -1
 		if want >= 0 {
